@@ -150,7 +150,15 @@ def run(rep: Report, tier: str) -> None:
     if not exits:
         rep.ok(rd, "row loop has no break / continue / return (only raise ends it early)")
     calls = [n for n in ast.walk(loop) if isinstance(n, ast.Call) and isinstance(n.func, ast.Name) and n.func.id == "_create_and_process_transaction"]
-    ok = len(calls) == 1 and [unparse(a) for a in calls[0].args] == ["configuration", "row_values", "current_table_type", "i + 1", "unfiltered_transaction_sets", "artificial_transaction_list"]
+    def _arg_text(a: ast.AST) -> str:
+        if isinstance(a, ast.Name):
+            defs = [n for n in ast.walk(loop) if isinstance(n, (ast.Assign, ast.AnnAssign)) and getattr(n, "value", None) is not None and unparse(n.targets[0] if isinstance(n, ast.Assign) else n.target) == a.id]
+            idx = loop.target.elts[0].id if isinstance(loop.target, ast.Tuple) and loop.target.elts and isinstance(loop.target.elts[0], ast.Name) else "i"
+            if len(defs) == 1 and unparse(defs[0].value) in (f"{idx} + 1", f"1 + {idx}") and defs[0] in loop.body and defs[0].lineno < a.lineno:
+                return "i + 1"  # the row number computed once per iteration
+        return unparse(a)
+
+    ok = len(calls) == 1 and [_arg_text(a) for a in calls[0].args] == ["configuration", "row_values", "current_table_type", "i + 1", "unfiltered_transaction_sets", "artificial_transaction_list"]
     rep.check(ok, rd, OP, po.qualname, "data rows are handed to the handler with this row's values and number (i + 1)", f"handler call is {short(calls[0], 160) if calls else 'missing'}; expected this iteration's row_values and i + 1", loc(calls[0]) if calls else loc(loop))
     if calls:
         conds = [unparse(t) if pol else f"not ({unparse(t)})" for t, pol in _conds(calls[0], loop)]
@@ -299,6 +307,17 @@ def _ev(t, val, prog):
             return {"==": lambda: a == b, "!=": lambda: a != b, "is": lambda: a is b, "is not": lambda: a is not b, "in": lambda: a in b, "not in": lambda: a not in b}[t[1]]()
         except (KeyError, TypeError):
             return _UNK
+    if k == "fstr":
+        out = ""
+        for x in t[1]:
+            if isinstance(x, str):
+                out += x
+                continue
+            y = _ev(x, val, prog)
+            if y is _UNK:
+                return _UNK
+            out += str(y)
+        return out
     if k == "tuple":
         xs = [_ev(x, val, prog) for x in t[1]]
         return _UNK if any(x is _UNK for x in xs) else tuple(xs)
@@ -354,7 +373,7 @@ def check_handler_paths(rep: Report, rd: str) -> None:
             continue
         adds = [e for e in p.events if e[0] == "add"]
         arts = [e for e in p.events if e[0] == "artificial"]
-        ok = len(adds) == 1 and len(arts) <= 1 and p.exit == "fall"
+        ok = len(adds) == 1 and len(arts) <= 1 and p.exit in ("fall", "return")
         rep.check(ok, rd, OP, h.qualname, f"handler path ({'split' if arts else 'plain'}) adds exactly one transaction" + ("" if ok else f" [{len(adds)} adds, exit {p.exit}]"), f"a path of _create_and_process_transaction (exit '{p.exit}' at {loc(p.exit_node) if p.exit_node else 'end'}) adds {len(adds)} transaction(s) to the sets and {len(arts)} to the artificial list; every parsed row must become exactly one transaction (rows must never be skipped, e.g. as 'duplicates')", loc(h.node), definite=p.exit != "fall" and not adds)  # an explicit return / continue that leaves without adding is a located construct
         if adds and not arts:
             rep.check(adds[0][1] == "unfiltered_transaction_sets[current_table_type]", rd, OP, h.qualname, "plain path adds to the set of the current table", f"the transaction is added to {adds[0][1]}; expected unfiltered_transaction_sets[current_table_type]", loc(h.node))
@@ -477,7 +496,13 @@ def check_split(rep: Report, rule: str) -> None:
     rep.check(ok, rule, CFG, gid.qualname, "artificial ids are strictly negative and decreasing (counter from 0, -= 1 under the lock)", "get_new_artificial_id no longer hands out -1, -2, ... from a counter that starts at 0 and is decremented under the lock: artificial ids could collide with sheet rows or with each other", loc(gid.node))
     # the split is taken exactly when a crypto fee is defined
     ifs = [n for n in h.node.body if isinstance(n, ast.If)]
-    ok = len(ifs) == 1 and unparse(ifs[0].test) == "isinstance(transaction, InTransaction) and transaction.is_crypto_fee_defined"
+    pos = "isinstance(transaction, InTransaction) and transaction.is_crypto_fee_defined"
+    neg = "not isinstance(transaction, InTransaction) or not transaction.is_crypto_fee_defined"
+    ok = len(ifs) == 1 and unparse(ifs[0].test) == pos
+    if len(ifs) == 1 and unparse(ifs[0].test) == neg:
+        # guard-clause form: the plain add sits under the negated condition and ends in return, the split follows
+        body_txt = " ".join(unparse(s) for s in ifs[0].body)
+        ok = "add_entry(transaction)" in body_txt and isinstance(ifs[0].body[-1], ast.Return) and not ifs[0].orelse
     rep.check(ok, rule, OP, h.qualname, "split taken exactly for in-transactions with a crypto fee", f"the split condition is {short(ifs[0].test, 120) if ifs else None}", loc(h.node))
     p = prog.func("rp2.in_transaction", "InTransaction.is_crypto_fee_defined")
     t = norm.inline(p, T, {}, Ctx(p.module, p.cls))
